@@ -593,6 +593,9 @@ func (l *Lexer) skipWhitespace() {
 // skipComment skips everything up to and including the closing "--}}".
 // It returns false when the comment is not terminated.
 func (l *Lexer) skipComment() bool {
+	l.readChar() // skip "-" of the opening "{{--"
+	l.readChar() // skip "-"
+
 	for l.char != 0 {
 		if !strings.HasPrefix(l.input[l.pos:], "--}}") {
 			l.readChar()
